@@ -115,6 +115,9 @@ func goEnv() []string {
 // replace directive, runs the repository's own ReadFile+Generate on every job
 // and returns the jobs with their results. Generated packages live in
 // dir/gen/<schema>_<opts>/.
+// Pair, when set, restricts the (schema, options) pairs that are generated (nil: the full product).
+var Pair func(s *Schema, o Options) bool
+
 func Generate(dir, repo string, schemas []*Schema, opts []Options) ([]*Job, error) {
 	gomod := "module vbasis\n\ngo 1.21\n\nrequire github.com/200sc/bebop v0.0.0\n\nreplace github.com/200sc/bebop => " + repo + "\n"
 	if err := os.WriteFile(filepath.Join(dir, "go.mod"), []byte(gomod), 0o644); err != nil {
@@ -138,6 +141,9 @@ func Generate(dir, repo string, schemas []*Schema, opts []Options) ([]*Job, erro
 			return nil, err
 		}
 		for _, o := range opts {
+			if Pair != nil && !Pair(s, o) {
+				continue
+			}
 			name := s.Name + "_" + o.Suffix()
 			pd := filepath.Join(dir, "gen", name)
 			if err := os.MkdirAll(pd, 0o755); err != nil {
